@@ -10,7 +10,10 @@ import (
 	"time"
 )
 
+type solverLost struct{ msg string }
+
 type Solver struct {
+	closed   bool
 	baseMs   int
 	name     string
 	fallback *Solver
@@ -107,6 +110,9 @@ func (s *Solver) Check(extra *Term) string {
 	r := s.readLine()
 	for r != "sat" && r != "unsat" && r != "unknown" {
 		if strings.HasPrefix(r, "(error") {
+			if strings.Contains(r, "canceled") || strings.Contains(r, "interrupted") {
+				panic(solverLost{r}) // the back end gave up in the middle of a command: the worker restarts it and redoes the path
+			}
 			panic("solver error: " + r)
 		}
 		r = s.readLine()
@@ -189,7 +195,21 @@ func (s *Solver) EndCheck() {
 	s.send("(pop 1)")
 }
 
+// Kill ends the back ends without ceremony (used when a back end lost synchronisation).
+func (s *Solver) Kill() {
+	if s.fallback != nil {
+		s.fallback.Kill()
+	}
+	s.closed = true
+	s.in.Close()
+	s.cmd.Process.Kill()
+	s.cmd.Wait()
+}
+
 func (s *Solver) Close() {
+	if s.closed {
+		return
+	}
 	if s.fallback != nil {
 		s.fallback.Close()
 	}
